@@ -214,7 +214,8 @@ class AnsatzWorld(World):
                 return {"k": "build", "init": None}
             if r < 0.6:
                 return {"k": "build", "init": "kw", "kw_idx": rng.randrange(8)}
-            return {"k": "build", "init": "vec", "zero_free": rng.random() < cfg["zero_free_p"], "seed": rng.randrange(10 ** 9)}
+            return {"k": "build", "init": "vec", "zero_free": rng.random() < cfg["zero_free_p"], "seed": rng.randrange(10 ** 9),
+                    "mode": rng.choice(["fresh", "fresh", "fresh", "ints"])}
         n = len(self.theta)
         if cfg["faults"] and self.ctx.faults.random() < cfg["fault_rate"]:
             f = self.ctx.faults
@@ -224,14 +225,15 @@ class AnsatzWorld(World):
         if cfg["ansatz"] == "ADAPT" and r < 0.3:
             return {"k": "adapt_add", "idx": rng.randrange(10 ** 6)}
         if r < 0.62:
-            mode = rng.choice(["fresh", "fresh", "fresh", "sign_flip", "repeat", "same_again", "zeros"])
+            mode = rng.choice(["fresh", "fresh", "fresh", "fresh", "sign_flip", "repeat", "same_again", "zeros", "ints"])
             return {"k": "update", "mode": mode, "zero_free": rng.random() < cfg["zero_free_p"], "seed": rng.randrange(10 ** 9)}
         if r < 0.66:
             return {"k": "set_update", "zero_free": rng.random() < cfg["zero_free_p"], "seed": rng.randrange(10 ** 9), "mode": rng.choice(["fresh", "zeros", "fresh"])}
         if r < 0.69:
             return {"k": "edit_update", "idx": rng.randrange(64), "delta": rng.choice([0.8, -0.4, 2 * PI])}
         if r < 0.74:
-            return {"k": "build", "init": "vec", "zero_free": rng.random() < cfg["zero_free_p"], "seed": rng.randrange(10 ** 9)}
+            return {"k": "build", "init": "vec", "zero_free": rng.random() < cfg["zero_free_p"], "seed": rng.randrange(10 ** 9),
+                    "mode": rng.choice(["fresh", "fresh", "fresh", "ints"])}
         if r < 0.82:
             return {"k": "set_build", "kw_idx": rng.randrange(8)}
         if r < 0.92:
@@ -244,6 +246,9 @@ class AnsatzWorld(World):
         prev = list(self.theta) if self.theta is not None and len(self.theta) == n else None
         if mode == "zeros":
             return [0.0] * n
+        if mode == "ints":
+            # integer-typed vector (python ints / an integer numpy array), as in update_var_params([0, 0, 0]) or [1, 2, -1]
+            return [0] * n if rng.random() < 0.4 else [rng.choice([-2, -1, 0, 0, 1, 2, 3]) for _ in range(n)]
         if prev is not None and mode == "sign_flip":
             return [-v for v in prev]
         if prev is not None and mode == "same_again":
@@ -500,7 +505,7 @@ class AnsatzWorld(World):
         ctx, a = self.ctx, self.a
         try:
             f = quiet(self._factory)
-            quiet(f.build_circuit, list(theta))
+            quiet(f.build_circuit, [float(x) for x in theta])
         except Exception as ex:
             # the fresh build with the very vector that was just accepted is refused: the accepted vector is not
             # reproducible -> report as a refusal of a promised operation
